@@ -162,11 +162,16 @@ pub fn build(case: &Case, ctx: &mut CaseCtx) -> Built {
                 );
                 proposal = 2;
             }
-            must(
-                exec(&mut d, &cands[proposer_ix], ExecuteMsg::Propose { title: "listed".into(), description: "d".into(), msgs: vec![], latest: None }),
-                "propose listed",
-            );
-            required.insert(Key::Addr(cands[proposer_ix].to_string()));
+            // now and then the listed proposal is opened by a voter of weight 0 (allowed): its implicit Yes
+            // ballot of weight 0 is a ballot like any other
+            let proposer: Addr = if case.variant % 7 == 3 {
+                ctx.count("fixed_votes_weightless_proposer");
+                zero1.clone()
+            } else {
+                cands[proposer_ix].clone()
+            };
+            must(exec(&mut d, &proposer, ExecuteMsg::Propose { title: "listed".into(), description: "d".into(), msgs: vec![], latest: None }), "propose listed");
+            required.insert(Key::Addr(proposer.to_string()));
             let other_proposal = if proposal == 2 {
                 1
             } else {
